@@ -82,6 +82,9 @@ pub enum Op {
     DeletePointer(usize),
     DeleteLabels(usize),
     DeleteLabel(usize, usize),
+    /// serialize, then parse the image again and continue on the PARSED archive (pending c-strings
+    /// become pool bytes + pointers; everything else must be the same archive)
+    Reload,
 }
 
 impl Op {
@@ -101,10 +104,22 @@ impl Op {
             Op::DeletePointer(..) => "delete_pointer",
             Op::DeleteLabels(..) => "delete_labels",
             Op::DeleteLabel(..) => "delete_label",
+            Op::Reload => "reload",
         }
     }
     pub fn is_relocation(&self) -> bool {
         matches!(self, Op::Allocate(..) | Op::AllocateAtEnd(..) | Op::Deallocate(..) | Op::Truncate(..) | Op::WriterAllocate(..) | Op::WriterAllocateAtEnd(..))
+    }
+}
+
+thread_local! {
+    static RELOAD_ENDIAN: std::cell::Cell<bool> = std::cell::Cell::new(false);
+}
+fn reload_endian(_a: &BinArchive) -> mila::Endian {
+    if RELOAD_ENDIAN.with(|c| c.get()) {
+        mila::Endian::Big
+    } else {
+        mila::Endian::Little
     }
 }
 
@@ -138,6 +153,16 @@ pub fn apply_real(a: &mut BinArchive, op: &Op) -> Result<(), String> {
         Op::DeletePointer(x) => a.delete_pointer(*x),
         Op::DeleteLabels(x) => a.delete_labels(*x),
         Op::DeleteLabel(x, i) => a.delete_label(*x, *i),
+        Op::Reload => {
+            let e = match a.serialize().and_then(|b| BinArchive::from_bytes(&b, reload_endian(a))) {
+                Ok(n) => {
+                    *a = n;
+                    return Ok(());
+                }
+                Err(e) => e,
+            };
+            Err(e)
+        }
     };
     r.map_err(|e| e.to_string())
 }
@@ -167,6 +192,10 @@ pub fn apply_model(m: &mut Content, op: &Op) -> Expect {
         }
         Op::Truncate(a) => {
             m.truncate(*a);
+            Expect::Accept
+        }
+        Op::Reload => {
+            *m = vcore::ref_bin::materialise_cstrings(m);
             Expect::Accept
         }
         Op::WriterAllocateAtEnd(_, n) => {
@@ -278,6 +307,7 @@ impl Sys {
             FORCED_RUNS.fetch_add(1, std::sync::atomic::Ordering::Relaxed);
         }
         let real = util::catch(|| -> Result<(Result<(), String>, arch::Obs, Result<Vec<u8>, String>), String> {
+            RELOAD_ENDIAN.with(|c| c.set(s.model.endian == End::Big));
             let mut a = self.rebuild(s.init, hist)?;
             let r = apply_real(&mut a, op);
             let o = arch::observe(&a);
@@ -293,7 +323,7 @@ impl Sys {
             Ok(Ok(x)) => x,
         };
         let accepted = r.is_ok();
-        let model_after = match (&expect, accepted) {
+        let mut model_after = match (&expect, accepted) {
             (Expect::Accept, true) | (Expect::Either, true) => model,
             (Expect::Reject, false) => {
                 w |= 32;
@@ -307,6 +337,17 @@ impl Sys {
                 return Err((format!("{}:accepted-invalid", kind), format!("{:?} was accepted but must be rejected (misaligned or out of range)", op), w));
             }
         };
+        if matches!(op, Op::Reload) && accepted {
+            // the raw bytes under annotated cells of a parsed archive are whatever the file holds
+            // there (pointer values, text offsets): taken over from the observation, they then
+            // belong to the content and must move with their cell
+            let cells: Vec<usize> = model_after.strings.keys().chain(model_after.pointers.keys()).cloned().collect();
+            for a in cells {
+                if a + 4 <= model_after.data.len() && a + 4 <= obs.bytes.len() {
+                    model_after.data[a..a + 4].copy_from_slice(&obs.bytes[a..a + 4]);
+                }
+            }
+        }
         let d = arch::diff_obs(&obs, &normalised(&model_after));
         if !d.is_empty() {
             let field = d[0].split_whitespace().next().unwrap_or("?").to_string();
@@ -401,6 +442,9 @@ impl System for Sys {
             for ge in [false, true] {
                 v.push(Op::WriterAllocate(pos, 4, ge));
             }
+        }
+        if m.in_roundtrip_domain() {
+            v.push(Op::Reload);
         }
         v.push(Op::WriterAllocate(size, 2, false));
         v.push(Op::WriterAllocateAtEnd(0, 4));
